@@ -1,6 +1,7 @@
 package main
 
 import (
+	"sync/atomic"
 	"bufio"
 	"encoding/json"
 	"flag"
@@ -232,6 +233,7 @@ func cmdCheck(args []string) int {
 		}
 	}
 	var wg sync.WaitGroup
+	var nFailed int32
 	pool := make(chan struct{}, 6)
 	for _, j := range jobs {
 		wg.Add(1)
@@ -250,10 +252,22 @@ func cmdCheck(args []string) int {
 				ob.Res = Solve(script, 3, []int{0})
 				return
 			}
+			if atomic.LoadInt32(&nFailed) > 8 {
+				// the tree is already known to violate the property: do not spend the full budget on
+				// every further obligation
+				ob.Res = Solve(script, 5, []int{0, 3})
+				if ob.Res.Status != "unsat" {
+					atomic.AddInt32(&nFailed, 1)
+				}
+				return
+			}
 			ob.Res = Solve(script, timeout, nil)
-			if !ob.Cover && (ob.Res.Status == "timeout" || ob.Res.Status == "unknown") {
+			if !ob.Cover && (ob.Res.Status == "timeout" || ob.Res.Status == "unknown") && atomic.LoadInt32(&nFailed) <= 3 {
 				// one retry with a longer budget before calling it a failure
 				ob.Res = Solve(script, timeout*3, nil)
+			}
+			if ob.Res.Status != "unsat" {
+				atomic.AddInt32(&nFailed, 1)
 			}
 		}(j)
 	}
@@ -329,7 +343,7 @@ func report(out *propOutcome, verbose bool) int {
 			knownLines = append(knownLines, fmt.Sprintf("KNOWN-FINDING: property=%s %s | %s", id, ob.Name, k.Text))
 			continue
 		}
-		v := writeReplay(out, ob, failedVC[ob])
+		v := writeReplay(out, ob, failedVC[ob], len(out.Violations) < 3)
 		out.Violations = append(out.Violations, v)
 	}
 	for _, b := range out.Bounded {
@@ -454,7 +468,7 @@ func replayDir() string {
 	return filepath.Join(verifDir(), "replays")
 }
 
-func writeReplay(out *propOutcome, ob *Obligation, vc *VC) violation {
+func writeReplay(out *propOutcome, ob *Obligation, vc *VC, withModel bool) violation {
 	dir := replayDir()
 	os.MkdirAll(dir, 0o755)
 	file := filepath.Join(dir, fmt.Sprintf("%s_%s.json", out.ID, hashStr(ob.Name)))
@@ -469,9 +483,15 @@ func writeReplay(out *propOutcome, ob *Obligation, vc *VC) violation {
 		"status":     ob.Res.Status,
 	}
 	v := violation{Obligation: ob.Name, Replay: file, NoInput: true}
+	if !withModel {
+		rep["note"] = "model search skipped (only the first violations of a run are replayed)"
+		data, _ := json.MarshalIndent(rep, "", " ")
+		os.WriteFile(file, append(data, '\n'), 0o644)
+		return v
+	}
 	// ask for a model
 	script := vc.obligationScript(ob, true)
-	res := Solve(script, 20, []int{0, 1})
+	res := Solve(script, 10, []int{0, 1})
 	rep["solver_output"] = truncate(res.Output, 20000)
 	if res.Status == "sat" {
 		inputs := modelInputs(res.Output, vc)
